@@ -479,12 +479,14 @@ class SetOrder:
         ndef = len(node.args.defaults)
         required = params[: len(params) - ndef] if ndef else params
         outs = []
+        created = []
         for order in (0, 1):
             probes = []
 
             def mkset(it, a, k, order=order, probes=probes):
                 p = OrderProbe(w, order)
                 probes.append(p)
+                created.append(p)
                 return p
 
             ext = dict(NUM_EXT)
@@ -505,6 +507,10 @@ class SetOrder:
             if not probes:
                 raise OutsideSubset("no iteration over a set was reached")
             outs.append(res)
+        if created and not any(p.used for p in created):
+            # the set never reached a `for` statement as its iterable: it was handed to zip / enumerate / list / a comprehension, whose result order the
+            # adjacent-swap lemma does not cover (`for x, z in zip(set(...), values)` pairs the elements with positions)
+            raise OutsideSubset("a set is created but never iterated directly by a for statement (zip / enumerate / list over a set): its order may reach the result")
         from contracts.state_common import eq_term
 
         a, b = z3.Const("probe:elem_a", Val), z3.Const("probe:elem_b", Val)
